@@ -199,9 +199,31 @@ func main() {
 		}
 		data, _ := json.MarshalIndent(req, "", " ")
 		os.WriteFile(filepath.Join(verif, "required_obligations.json"), data, 0o644)
+		sdata, _ := json.MarshalIndent(e.shapes(), "", " ")
+		os.WriteFile(filepath.Join(verif, "baseline_shapes.json"), sdata, 0o644)
 		for _, p := range sortedKeys(req) {
 			fmt.Println(p, len(req[p]))
 		}
+	case "sigs":
+		// govc sigs : parameter names (receiver first) of every repo function, as JSON
+		e, err := NewEngine(repo, verif)
+		if err != nil {
+			fmt.Println("load error:", err)
+			os.Exit(2)
+		}
+		out := map[string][]string{}
+		for k, fn := range e.fnByKey {
+			if !e.isRepoFn(fn) {
+				continue
+			}
+			names := []string{}
+			for _, p := range fn.Params {
+				names = append(names, p.Name())
+			}
+			out[k] = names
+		}
+		data, _ := json.MarshalIndent(out, "", " ")
+		fmt.Println(string(data))
 	case "callees":
 		e, err := NewEngine(repo, verif)
 		if err != nil {
@@ -260,6 +282,11 @@ func runCheck(repo, verif, prop, tier string, verbose bool) int {
 	}
 	var all []*Obligation
 	var undecided []string
+	evalErrFns := map[string]bool{}
+	baseShapes := map[string]Shape{}
+	if data, err := os.ReadFile(filepath.Join(verif, "baseline_shapes.json")); err == nil {
+		json.Unmarshal(data, &baseShapes)
+	}
 	opaque := map[string]bool{}
 	assumed := map[string]bool{}
 	inlined := map[string]bool{}
@@ -288,6 +315,15 @@ func runCheck(repo, verif, prop, tier string, verbose bool) int {
 		}
 		for _, u := range r.Undecided {
 			undecided = append(undecided, fc.Key+": "+u)
+			// the contract names something the code no longer has (static mismatch), as opposed to a rule
+			// that refers to an event which does not occur on some path (which a deletion can cause)
+			// (only errors in preconditions and in callee contracts at call sites: they leave the premises
+			// of the whole function unknown; an unevaluable rule of its own only loses that rule)
+			for _, pat := range []string{"unknown identifier", "selector .", "cannot index", "has no field", "numeric selector", "not a tuple"} {
+				if strings.HasPrefix(u, "contract ") && strings.Contains(u, pat) && !strings.Contains(u, "(in \"loop ") {
+					evalErrFns[fc.Key] = true
+				}
+			}
 		}
 		for _, x := range r.Opaque {
 			opaque[x] = true
@@ -389,9 +425,20 @@ func runCheck(repo, verif, prop, tier string, verbose bool) int {
 			continue
 		}
 		f := g.failed[0]
+		for _, cand := range g.failed {
+			if cand.OpqDep == "" {
+				f = cand // prefer an instance whose refutation does not hinge on an unmodelled call
+				break
+			}
+		}
 		if f.Kind == "arith" {
 			// signed overflow is not a panic: an undischarged no-overflow obligation means the
 			// mathematical-integer model is not justified for this function, i.e. not decided
+			if why := e.notAViolation(f, name, baseShapes, evalErrFns); strings.HasPrefix(why, "assume:") {
+				notes[strings.TrimPrefix(why, "assume:")] = true
+				discharged++
+				continue
+			}
 			undecided = append(undecided, "no-overflow obligation "+name+" could not be discharged (integer model not justified here)")
 			continue
 		}
@@ -413,7 +460,6 @@ func runCheck(repo, verif, prop, tier string, verbose bool) int {
 		if isKnown {
 			continue
 		}
-		violations++
 		os.MkdirAll(replayDir, 0o755)
 		rp := filepath.Join(replayDir, nonFile.ReplaceAllString(name, "_")+".json")
 		smtPath := strings.TrimSuffix(rp, ".json") + ".smt2"
@@ -424,7 +470,23 @@ func runCheck(repo, verif, prop, tier string, verbose bool) int {
 		replayed := tryReplay(e, verif, repo, prop, f, rec)
 		if !replayed {
 			suffix = " no-failing-input-found"
+			// A failed proof is a violation only when the obligation is one the unchanged tree discharges and
+			// the code it talks about is still the code the contract was written against. Otherwise the honest
+			// answer is "undecided" (the proof needs maintenance), never an alarm.
+			if why := e.notAViolation(f, name, baseShapes, evalErrFns); why != "" {
+				if strings.HasPrefix(why, "assume:") {
+					notes[strings.TrimPrefix(why, "assume:")] = true
+					discharged++
+					continue
+				}
+				undecided = append(undecided, "obligation "+name+" not discharged, not reported as a violation: "+why)
+				rec["classification"] = "undecided: " + why
+				data, _ := json.MarshalIndent(rec, "", " ")
+				os.WriteFile(rp, data, 0o644)
+				continue
+			}
 		}
+		violations++
 		data, _ := json.MarshalIndent(rec, "", " ")
 		os.WriteFile(rp, data, 0o644)
 		violLines = append(violLines, fmt.Sprintf("VIOLATION property=%s replay=%s obligation=%s%s", prop, rp, name, suffix))
@@ -579,4 +641,47 @@ func listObligations(e *Engine, prop string) []string {
 		}
 	}
 	return sortedBools(seen)
+}
+
+// notAViolation decides whether an undischarged obligation (for which no failing input could be
+// replayed) may be reported as a violation. It returns "" if so, else the reason it is only undecided;
+// a reason starting with "assume:" is recorded as an assumption instead.
+func (e *Engine) notAViolation(f *Obligation, name string, base map[string]Shape, evalErrFns map[string]bool) string {
+	owner := name
+	if i := strings.Index(owner, "/"); i >= 0 {
+		owner = owner[:i]
+	}
+	if f.Kind == "cover" {
+		return "vacuity guard (the contract's preconditions are no longer satisfiable for this code)"
+	}
+	if evalErrFns[f.Fn] {
+		return "the contract of " + f.Fn + " (or of a function it calls) cannot be evaluated against the current code"
+	}
+	if len(base) == 0 {
+		return ""
+	}
+	proofInternal := map[string]bool{"invariant": true, "auto-invariant": true, "requires": true, "safe": true, "arith": true, "unwind": true}
+	for _, k := range []string{owner, f.Fn} {
+		fn := e.fnByKey[k]
+		if fn == nil {
+			continue
+		}
+		b, known := base[k]
+		if !known {
+			if f.Kind == "arith" {
+				return "assume:machine arithmetic treated as mathematical in " + k + " (function not present in the baseline; no-overflow obligation " + name + " not discharged)"
+			}
+			if proofInternal[f.Kind] || k == owner {
+				return "function " + k + " is not part of the baseline the contracts were written against (it needs a contract of its own)"
+			}
+			continue
+		}
+		if proofInternal[f.Kind] && !sameShape(b, e.shapeOf(fn)) {
+			return "the structure of " + k + " (loops, closures, captured variables, signature) differs from the baseline its proof was written against"
+		}
+	}
+	if f.OpqDep != "" {
+		return "the refutation depends on the unconstrained result of " + f.OpqDep + ", a call that has no contract"
+	}
+	return ""
 }
